@@ -24,6 +24,8 @@ MANIFEST_ENTRY = {
 
 
 def regen_xid(ctx, bindir):
+    if ctx.prop != "C08":      # C24/C10 reuse the lexer model: make sure the dumper exists next to their harness
+        core.cargo_build(["c08"])
     out = os.path.join(core.LEAN, "ErgVerif", "Gen", "XidTable.lean")
     rc, o, e = core.sh([core.PYTHONS["3.11"], os.path.join(core.VERIF, "py", "c08_xidgen.py"), os.path.join(bindir, "c08"), out])
     ctx.cov["gen_tables"] = {"XidTable": (o or e).strip()}
@@ -31,7 +33,7 @@ def regen_xid(ctx, bindir):
         ctx.violation({"kind": "xid-table-generation-failed", "stderr": e[-2000:]}, no_input=True)
     elif o.startswith("written"):
         # the table changed: the Lean side was built against the old one -> rebuild so that the theorems and the driver see the new table
-        ok, log = core.lake_build(["ErgVerif.C08.Props", "ergmodel_c08"])
+        ok, log = core.lake_build([f"ErgVerif.{ctx.prop}.Props", "ergmodel_" + ctx.prop.lower()])
         if not ok:
             ctx.violation({"kind": "no-longer-shown", "what": "theorems do not re-check against the regenerated identifier table", "log": log[-3000:]}, no_input=True)
 
